@@ -422,6 +422,37 @@ def mode_cells():
                     yield sit, mode, how, end
 
 
+# record names whose own text looks like part of the suffix grammar (<name>[.p<k>].ih5): digits, a trailing p<digits>, dashes
+NAME_SHAPES = ["exp1", "step10", "run-p2", "p1", "x-p3", "ih5", "a-p", "2020", "P9p9"]
+
+
+def run_nameshape_case(R: Recorder, cls_key: str, name: str, case):
+    """A record alone in a directory: base, then two patches written after reopening BY NAME; every file that appears
+    must belong to that name (so that find_files sees it), and reopening by name shows everything written."""
+    cls = CLASSES[cls_key]
+    sig = f"c03:{cls_key}:nameshape"
+    with tmpdir() as d:
+        rec = cls(d / name, "x")
+        apply_op(rec, ["set", "base/x", 0], is_ih5=True)
+        view = dump_tree(rec)
+        rec.close()
+        for gen in (1, 2):
+            rec, err = try_open(cls, d / name, "r+" if gen == 1 else "a")
+            if not R.check(err is None, f"{sig}:reopen-for-update", f"record {name!r}: cannot be reopened by name for patch {gen}: {err}", dict(case, gen=gen), FNS):
+                return
+            if not R.check(dump_tree(rec) == view, f"{sig}:reopen", f"record {name!r}: reopened by name before patch {gen}: tree differs from the one before close()", dict(case, gen=gen), FNS):
+                rec.close()
+                return
+            apply_op(rec, ["set", f"patch{gen}/y", gen], is_ih5=True)
+            view = dump_tree(rec)
+            rec.close()
+            foreign = sorted(p.name for p in d.iterdir() if not p.name.startswith(name + "."))
+            R.check(not foreign, f"{sig}:foreign-file", f"record {name!r}: writing patch {gen} after a reopen by name created files outside the record's own names: {foreign}", dict(case, gen=gen), FNS + ["ih5/record.py:IH5Record._infer_name"])
+            dmp, _, err = LC.open_dump(cls, d / name, "r")
+            R.check(err is None and dmp == view, f"{sig}:reopen", f"record {name!r}: reopen by name after patch {gen}: {'error ' + str(err) if err else 'tree differs from the one before close()'}", dict(case, gen=gen), FNS + ["ih5/record.py:IH5Record._infer_name"])
+            R.case(("nameshape", cls_key, name, gen), nontrivial=True)
+
+
 def run(tier: str, seed: int) -> dict:
     R = Recorder(PID, DRV)
     t0 = time.time()
@@ -435,6 +466,10 @@ def run(tier: str, seed: int) -> dict:
     # ---- (A00) the same record name through several generations in this process
     for cls_key in ("ih5", "mf"):
         run_generations_case(R, cls_key, {"kind": "generations", "cls": cls_key})
+    # ---- (A01) names that look like parts of the file-name grammar
+    for cls_key in ("ih5",) if tier == "quick" else ("ih5", "mf"):
+        for nm in NAME_SHAPES:
+            run_nameshape_case(R, cls_key, nm, {"kind": "nameshape", "cls": cls_key, "name": nm})
     # ---- (A)
     hist_a = [0, 1, 3, 5] if tier == "quick" else list(range(len(HISTORIES)))
     a_done = 0
@@ -483,7 +518,7 @@ def run(tier: str, seed: int) -> dict:
         R.notes.append(f"observation (not claimed as violation): mode 'w' on an IH5MFRecord left manifest sidecars (*.ih5mf.json) of the replaced record behind in {stats['w_leftover_sidecars']} cases (delete_files only removes *.ih5)")
     R.notes.append(f"reopen cases: {a_done} ({stats['perm_opens']} permutation opens); mode-table cells: {stats['cells']} in {stats['templates']} shared directories (opened {stats['opened']}, refused {stats['refused']}, n/a {stats['skipped']})")
     return R.result(
-        rule="(A) case = (class, history of the fixed family (1-4 containers), newest committed or not): reopen by name, by every permutation of the explicit file list, and in r+/a; "
+        rule="(A01) a record named like a piece of the file-name grammar (" + ", ".join(NAME_SHAPES) + "), alone in its directory: base + two patches each written after a reopen by name; (A) case = (class, history of the fixed family (1-4 containers), newest committed or not): reopen by name, by every permutation of the explicit file list, and in r+/a; "
         "(B-D) case = cell (class, subject name in {foo,foo2,foo-bar,fo}, on-disk situation in {absent, uncommitted base, committed base, patched, uncommitted patch}, "
         "mode in {r,r+,a,w,w-,x}, by name | by shuffled explicit list, ending in {close(commit=False), write+discard_patch, write+close()}) run in a directory shared with the three other "
         "prefix-related records (each in another situation); distinct = distinct cells/cases; every cell exercises at least one clause on real files",
@@ -504,6 +539,8 @@ def replay(case: dict):
     stats = {"opened": 0, "refused": 0, "skipped": 0, "perm_opens": 0, "w_leftover_sidecars": 0, "cells": 0, "templates": 0}
     if case["kind"] == "generations":
         run_generations_case(R, case["cls"], {"kind": "generations", "cls": case["cls"]})
+    elif case["kind"] == "nameshape":
+        run_nameshape_case(R, case["cls"], case["name"], {"kind": "nameshape", "cls": case["cls"], "name": case["name"]})
     elif case["kind"] == "reopen-long":
         c = {k: v for k, v in case.items() if k != "perm"}
         run_reopen_case(R, case["cls"], -1, case["commit_last"], c, stats, perms_limit=3, segments=LONG_HISTORY)
